@@ -33,8 +33,9 @@ ASSUMPTIONS = [
     "the implementation's pooled dict is split over parallel arcs cheapest-first by the harness before the verified "
     "checker runs (any other split costs at least as much, so verdicts on capacity/balance/optimality are unaffected)",
     "excluded region: negative-cost cycles, negative capacities, negative demand, non-integer data",
-    "[S] ssp_certifies (the model emits a valid certificate on every input) is not proved; every explored input is "
-    "certificate-checked instead, a failed model certificate is an infrastructure error",
+    "[S] ssp_certifies (the model always ends with a certificate the checker accepts) is not proved; the driver runs "
+    "the certifying wrapper (ssp_sound: every answer handed out is right) and 'no certified answer' on an explored "
+    "input is an infrastructure error, never a verdict",
 ]
 RULE = ("networks of 2..6 nodes (8 thorough), <= 12 arcs (16), costs -3..6 built as reduced cost >= 0 plus a potential "
         "difference (no negative cycle), capacities 0..6 with zero-capacity arcs, parallel arcs of equal and different "
